@@ -24,6 +24,9 @@ type Analysis struct {
 	// PostCall is called after the transfer of a call instruction (ghost updates that
 	// depend on the call having happened).
 	PostCall func(a *Analysis, f *Frame, in ssa.CallInstruction, st State) State
+	// Post is called after the transfer of every non-control instruction (facts a rule
+	// establishes itself, e.g. about a freshly created object).
+	Post func(a *Analysis, f *Frame, in ssa.Instruction, st State) State
 	// EdgeHook is called for every control-flow edge with the state flowing along it (after
 	// branch filtering, before phi kills are visible to the successor).
 	EdgeHook func(a *Analysis, f *Frame, from, to *ssa.BasicBlock, st State)
@@ -248,6 +251,17 @@ func (a *Analysis) analyze(f *Frame, entry State) *exitState {
 			default:
 				pred = nil
 				st = a.transfer(f, instr, st)
+			}
+			if a.Post != nil && !st.IsEmpty() {
+				switch instr.(type) {
+				case *ssa.If, *ssa.Jump, *ssa.Return, *ssa.Panic:
+				default:
+					n := a.Post(a, f, instr, st)
+					if !Equal(n, st) {
+						pred = nil
+					}
+					st = n
+				}
 			}
 		}
 	}
@@ -825,6 +839,9 @@ func rootAlloc(v ssa.Value) *ssa.Alloc {
 
 // compareConstStrings orders two canonical constants (both quoted strings or both integers).
 func compareConstStrings(a, b string) (int, bool) {
+	if a == "nil" && b == "nil" {
+		return EQ, true
+	}
 	if strings.HasPrefix(a, `"`) && strings.HasPrefix(b, `"`) {
 		switch {
 		case a < b:
